@@ -26,6 +26,11 @@ import json,re
 m=json.load(open('$d/meta.json'))
 ids=re.findall(r'C[0-9][0-9]', m.get('detected_by',''))
 print(' '.join(dict.fromkeys(ids[:1] or [m['property']])))")
+  # further properties to try when the change's own property does not fire (a change
+  # can break a neighbouring property): lines "<name> <ID> <ID> ..." in $ALSOFILE
+  if [ -n "${ALSOFILE:-}" ] && [ -f "$ALSOFILE" ]; then
+    props="$props $(grep -E "^$m " $ALSOFILE | cut -d' ' -f2-)"
+  fi
   cd $S/repo && git checkout -q -- . && git clean -fdq
   if ! git apply $d/patch.diff 2>/dev/null; then
     if ! git apply --3way $d/patch.diff >/dev/null 2>&1; then git reset -q --hard HEAD; echo "$m DOES-NOT-APPLY"; continue; fi
